@@ -356,6 +356,12 @@ def scale_cases(rng):
     out.append(" ".join("-iname 'N%d*'" % (i % 150) for i in range(300)) + " -print0")
     out.append(" ".join("-threads %d" % i for i in range(200)) + " -true")
     out.append("-true " + " ".join("-depth" for _ in range(200)))
+    for n_ in (255, 256, 257, 1000):          # counts across the width of a byte
+        out.append("-true" + " -depth" * n_)
+        out.append("-true" + " -threads 2" * n_)
+        out.append("-depth " * n_ + "-true")
+        out.append(" -o ".join("-name n" for _ in range(n_)))
+        out.append("-print" + " -print" * n_)
     out.append("! " * 300 + "-true")
     out.append(" , ".join("-true" for _ in range(300)))
     out.append("-name " + "".join(rng.choice(UNICODE_LETTERS + "ab*?[") for _ in range(3000)))
@@ -416,6 +422,9 @@ def harvest_inputs(kinds):
                       "( " + w + " )", "! " + w + " a", w.upper(), w + "x", w[:-1]):
                 out.append((t, "harvest-keyword"))
     if "format" in kinds:
+        for name in ["a", "user.comment", "a.b", ".a", "a.", "a_b", "a1", "1", "a-b", "", "A", "a:b", "a}b", "é", "user.", "a..b", "a b"]:
+            out.append(("-printf '%{xattr:" + name + "}'", "harvest-format"))
+            out.append(("-fprintf out 'x%{xattr:" + name + "}y\\n'", "harvest-format"))
         for w in h["format"]:
             if "'" in w:
                 continue
